@@ -34,6 +34,13 @@ func wiringSpecs(n int, devBound int, prefix string) ([]specCase, explore.Stats)
 			}
 			x.Choose("variadic", 2)
 			x.Choose("errs", 2)
+			x.Choose("depth", 3)    // the named set wrapped in 0..2 further named sets
+			if reachableDag(n, adj) {
+				x.Choose("place", 3) // 0 one named set, 1 one named set per node, 2 per node and declared pairwise in one var spec
+			}
+			if x.Choose("second", 3) > 0 { // a second injector over the same set objects, after / before the first
+				x.Choose("root2", n)
+			}
 		}, func(x *explore.Ctx) {
 			ch := x.Map()
 			g := &GraphSpec{N: n, Adj: adj, Nodes: make([]NodeSpec, n), Root: n - 1, InSet: true}
@@ -49,6 +56,13 @@ func wiringSpecs(n int, devBound int, prefix string) ([]specCase, explore.Stats)
 			}
 			// a struct-kind node in lib with fields from the root package would be an import cycle: impossible by construction (deps are lower-numbered)
 			g.Split = ch["split"] == 1
+			g.Depth = ch["depth"]
+			if ch["place"] > 0 {
+				g.InSet, g.PerNode, g.Split = false, true, false
+				g.PairSets = ch["place"] == 2
+			}
+			g.Second = ch["second"]
+			g.SecondRoot = n - 1 - ch["root2"]
 			out = append(out, specCase{fmt.Sprintf("%sn=%d/dag=%d/%s", prefix, n, mask, x.ID()), g})
 		})
 		total.Executions += st.Executions
@@ -76,7 +90,7 @@ func checkC02(c *h.Check) {
 		exp[fmt.Sprintf("n=%d", n)] = map[string]interface{}{"dags": 1 << uint(dagEdgeBits(n)), "deviation_bound": b, "executions": st.Executions, "skipped": st.Skipped}
 	}
 	cases, results := runSpecs(c, specs, map[string]bool{"wiring": true})
-	stdCoverage(c, cases, results, "all DAGs on N labelled types (node i depends on a subset of lower-numbered nodes, last node is the result), function providers by default; deviations (bounded per N, see explorer): node source kind (struct pointer/value, field, pointer-to-field, binding, value, injector parameter), type shape (leaf, pointer, named int, interface, slice), lib-package placement, nested lib set, variadic parameter, error/cleanup mix. Oracle: every provider argument / struct field / selected field / result carries the identity minted by the model's designated source in the same call; exactly the needed providers run, once. Distinct = distinct rendered source.")
+	stdCoverage(c, cases, results, "all DAGs on N labelled types (node i depends on a subset of lower-numbered nodes, last node is the result), function providers by default; deviations (bounded per N, see explorer): node source kind (struct pointer/value, field, pointer-to-field, binding, value, injector parameter), type shape (leaf, pointer, named int, interface, slice), lib-package placement, nested lib set, variadic parameter, error/cleanup mix, nesting depth of the set (0-2 extra levels), one named set per node (also declared pairwise in one var spec), a second injector over the same set objects declared before or after the first. Oracle: every provider argument / struct field / selected field / result carries the identity minted by the model's designated source in the same call; exactly the needed providers run, once. Distinct = distinct rendered source.")
 	c.Coverage["explorer"] = exp
 	sampleCase(c, cases, results)
 	c.Assumptions = append(c.Assumptions, "data independence: identities stand for all injector argument values")
